@@ -25,18 +25,20 @@ pub struct SubMode {
     pub prefilter: bool,
     pub judge_values: bool,
     pub judge_region: bool,
+    pub judge_panics: bool,
 }
 
 pub fn mode_for(prop: &str) -> SubMode {
-    let none = SubMode { fwd_top: false, rev_top: false, iters: false, blocks: false, prefilter: false, judge_values: true, judge_region: false };
+    let none = SubMode { fwd_top: false, rev_top: false, iters: false, blocks: false, prefilter: false, judge_values: true, judge_region: false, judge_panics: true };
     match prop {
         "C03" => SubMode { fwd_top: true, ..none },
         "C04" => SubMode { rev_top: true, ..none },
         "C08" => SubMode { iters: true, ..none },
         "C11" => SubMode { prefilter: true, ..none },
         "C12" => SubMode { blocks: true, ..none },
-        "C05" => SubMode { fwd_top: true, rev_top: true, iters: true, blocks: true, prefilter: true, judge_values: false, judge_region: true },
-        _ => SubMode { fwd_top: true, rev_top: true, iters: true, blocks: true, prefilter: true, judge_values: true, judge_region: false },
+        "C05" => SubMode { fwd_top: true, rev_top: true, iters: true, blocks: true, prefilter: true, judge_values: false, judge_region: true, judge_panics: false },
+        "C14" => SubMode { fwd_top: true, rev_top: true, iters: true, blocks: true, prefilter: true, judge_values: false, judge_region: false, judge_panics: true },
+        _ => SubMode { fwd_top: true, rev_top: true, iters: true, blocks: true, prefilter: true, judge_values: true, judge_region: false, judge_panics: true },
     }
 }
 
@@ -120,6 +122,7 @@ pub fn check_pair(ctx: &Ctx, mode: SubMode, set: &SubSet, hay: &[u8], place: Pla
     let r = catch_unwind(AssertUnwindSafe(|| check_pair_inner(ctx, mode, set, hay, place, st)));
     let out = match r {
         Ok(v) => v,
+        Err(_) if !mode.judge_panics => None,
         Err(p) => Some(sub_viol(ctx, "?", "panic", needle, hay, place, "no panic", &panic_msg(&p), &format!("panic: {} (journal {})", panic_msg(&p), journal::ctx()))),
     };
     if mode.judge_region {
@@ -306,6 +309,8 @@ pub fn exhaustive(ctx: &Ctx, mode: SubMode) -> Frag {
     let (bn, bh, tn, th) = if ctx.thorough { (10, 16, 6, 10) } else { (8, 12, 5, 8) };
     // complete iterator runs over embedded haystacks are ~6x the work of a single search
     let (bn, tn) = if mode.iters && !ctx.thorough { (bn - 2, tn - 1) } else { (bn, tn) };
+    // the union passes of C05/C14/C09 repeat what C03/C04/C08/C12 judge individually
+    let (bn, tn) = if mode.iters && mode.blocks && !ctx.thorough { (bn - 1, tn - 1) } else { (bn, tn) };
     // under emulation everything is ~10x slower: shrink by one
     let (bn, bh, tn, th) = if mvcore::cfgs::cfg_emu() { (bn - 1, bh - 1, tn - 1, th - 1) } else { (bn, bh, tn, th) };
     let embed_too = mode.fwd_top || mode.rev_top || mode.iters;
@@ -536,6 +541,7 @@ pub fn pbt(ctx: &Ctx, mode: SubMode, stage: &str) -> Frag {
         let _ = events_take();
         let set = match catch_unwind(AssertUnwindSafe(|| SubSet::new(np))) {
             Ok(s) => s,
+            Err(_) if !mode.judge_panics => return Ok(()),
             Err(p) => {
                 g.failed = Some(sub_viol(ctx, "constructors", "panic", np, hp, place, "no panic", &panic_msg(&p), &format!("panic while building finders: {}", panic_msg(&p))));
                 return Err(TestCaseError::fail("violation"));
